@@ -248,6 +248,105 @@ def jws_ops_witness(op: int, name: str, allow: Optional[List[str]], via_registry
     return not (name == "HS384")
 
 
+# ---------------------------------------------------------------- operations (JWE side)
+from vlib.harness_loader import load as _load
+C16 = _load("c16_errors.py")
+_JK = {"RSA": ice.fake_key("RSA", private=True), "EC": ice.fake_key("P-256", private=True), "oct16": ice.fake_key("oct16"), "oct24": ice.fake_key("oct24"),
+       "oct32": ice.fake_key("oct32")}
+JWE_KEY = {"RSA1_5": "RSA", "RSA-OAEP": "RSA", "RSA-OAEP-256": "RSA", "A128KW": "oct16", "A192KW": "oct24", "A256KW": "oct32", "ECDH-ES": "EC",
+           "ECDH-ES+A128KW": "EC", "ECDH-ES+A192KW": "EC", "ECDH-ES+A256KW": "EC", "A128GCMKW": "oct16", "A192GCMKW": "oct24", "A256GCMKW": "oct32",
+           "PBES2-HS256+A128KW": "oct32", "PBES2-HS384+A192KW": "oct32", "PBES2-HS512+A256KW": "oct32"}
+CEKLEN = {"A128CBC-HS256": 32, "A192CBC-HS384": 48, "A256CBC-HS512": 64, "A128GCM": 16, "A192GCM": 24, "A256GCM": 32}
+_JP = None
+
+
+def _jwe_ops(op, alg, enc, has_zip, zipname, allow, via_registry, v0, v1):
+    global _JP
+    rt.tick()
+    if _JP is None:
+        _JP = C16.patches()
+    n = CEKLEN.get(enc, 16)
+    key = _JK.get(JWE_KEY.get(alg), ice.fake_key("oct%d" % n))
+    hdr = {"alg": alg, "enc": enc}
+    if has_zip:
+        hdr["zip"] = zipname
+    full = dict(hdr)
+    if alg in ("A128GCMKW", "A192GCMKW", "A256GCMKW"):
+        full["iv"], full["tag"] = "KWIV", "KWTAG"
+    if alg in JWE_KEY and alg.startswith("PBES2"):
+        full["p2s"], full["p2c"] = "P2S", 1000
+    if alg in JWE_KEY and alg.startswith("ECDH"):
+        full["epk"] = {"kty": "EC", "crv": "P-256", "x": "EPKX", "y": "EPKY"}
+    env = C16.jwe_env(full, [v0, v1, v1])
+    env.bind_b64(b"IVSEG", bytes(16 if "CBC" in enc else 12))
+    env.ceks = [bytes(n), bytes(n)]
+    env.plaintext = b"payload"
+    env.bind_json(b"payload", lambda: {"sub": "x"})
+    kw = {"registry": JWERegistry(algorithms=allow)} if via_registry else {"algorithms": allow}
+    tok = b"PROTSEG." + (b"" if alg in ("dir", "ECDH-ES") else b"EKSEG") + b".IVSEG.CTSEG.TAGSEG"
+    with env.installed(_JP):
+        try:
+            if op == 0:
+                jwe.encrypt_compact(dict(hdr), b"pt", key, **kw)
+            elif op == 1:
+                jwe.decrypt_compact(tok, key, **kw)
+            elif op == 2:
+                o = jwe.FlattenedJSONEncryption({k: v for k, v in hdr.items() if k != "alg"}, b"pt")
+                o.add_recipient({"alg": alg}, key)
+                jwe.encrypt_json(o, None, **kw)
+            elif op == 3:
+                v = {"protected": "PROTSEG", "iv": "IVSEG", "ciphertext": "CTSEG", "tag": "TAGSEG"}
+                if alg not in ("dir", "ECDH-ES"):
+                    v["encrypted_key"] = "EKSEG"
+                jwe.decrypt_json(v, key, **kw)
+            elif op == 4:
+                jwt.encode(dict(hdr), {"sub": "x"}, key, registry=JWERegistry(algorithms=allow))
+            else:
+                jwt.decode(tok, key, registry=JWERegistry(algorithms=allow))
+            returned, exc = True, None
+        except ice.HarnessError:
+            raise
+        except Exception as e:  # noqa
+            returned, exc = False, e
+    ok = spec_jwe("alg", alg, allow) and spec_jwe("enc", enc, allow) and (not has_zip or spec_jwe("zip", zipname, allow))
+    prims = [c for c in env.calls if c["kind"] in ("gcm_encrypt", "gcm_decrypt", "cbc_encrypt", "cbc_decrypt", "wrap", "unwrap", "rsa_encrypt", "rsa_decrypt",
+                                                   "exchange", "pbkdf2", "concatkdf", "hmac", "zcompress", "zdecompress")]
+    if returned and not ok:
+        return False
+    if prims and not (spec_jwe("alg", alg, allow) and spec_jwe("enc", enc, allow)):
+        return False                     # a cryptographic primitive was used although alg or enc is not allowed
+    if not returned and not ok and not isinstance(exc, (UnsupportedAlgorithmError, ValueError)):
+        return False
+    return True
+
+
+def jwe_ops(op: int, alg: str, enc: str, has_zip: bool, zipname: str, allow: Optional[List[str]], via_registry: bool, v0: bool, v1: bool) -> bool:
+    """
+    PRE: 0 <= op <= 5 and len(alg) <= 18 and len(enc) <= 13 and len(zipname) <= 3
+    PRE: allow is None or (len(allow) <= 2 and all(len(a) <= 18 for a in allow))
+    POST: _
+    """
+    return _jwe_ops(op, alg, enc, has_zip, zipname, allow, via_registry, v0, v1)
+
+
+def jwe_ops_witness(op: int, alg: str, enc: str, allow: Optional[List[str]], v0: bool, v1: bool) -> bool:
+    """
+    pre: 0 <= op <= 3 and len(alg) <= 18 and len(enc) <= 13
+    pre: allow is None or (len(allow) <= 2 and all(len(a) <= 18 for a in allow))
+    post: _
+    """
+    global _JP
+    if _JP is None:
+        _JP = C16.patches()
+    env = C16.jwe_env({"alg": alg, "enc": enc}, [v0, v1, v1])
+    with env.installed(_JP):
+        try:
+            jwe.decrypt_compact(b"PROTSEG.EKSEG.IVSEG.CTSEG.TAGSEG", _JK.get(JWE_KEY.get(alg), _JK["oct16"]), algorithms=allow)
+        except Exception:  # noqa
+            return True
+    return not (alg == "A128KW" and allow is not None)
+
+
 def replay_state_leak():
     """CrossHair saw different paths for the same decisions: some registry state survives a call.  Scripted concrete histories
     on the real code (no stubs): every (first list, extension, second list, name) over the registered names + one unknown."""
@@ -276,6 +375,53 @@ def replay_state_leak():
 def replay(func, call):
     if call == "@nondeterministic":
         return replay_state_leak()
+    if func.startswith("jwe_ops"):
+        import warnings
+        warnings.simplefilter("ignore")
+        from vlib import refjose as R
+        from joserfc.jwk import JWKRegistry
+        a = eval("(" + call + ",)")
+        if "__" in func:
+            a = (int(func.split("__")[1]),) + a
+        op, alg, enc, has_zip, zipname, allow, via_registry, v0, v1 = a
+        kk = {"RSA": "RSA2048", "EC": "P-256"}.get(JWE_KEY.get(alg), JWE_KEY.get(alg)) or ("oct%d" % CEKLEN.get(enc, 16))
+        jwk = R.test_key(kk)
+        key = JWKRegistry.import_key(jwk)
+        hdr = {"alg": alg, "enc": enc, **({"zip": zipname} if has_zip else {})}
+        kw = {"registry": JWERegistry(algorithms=allow)} if via_registry else {"algorithms": allow}
+        try:
+            add, ek, cek = R.key_manage(alg, enc, R.public_jwk(jwk) if jwk["kty"] != "oct" else jwk)
+            import zlib
+            tok = R.compact_encrypt({**hdr, **add}, b'{"sub":"x"}', cek, ek, bytes(12 if "GCM" in enc else 16))
+        except Exception:  # noqa
+            tok = "e30.AA.AA.AA.AA"
+        try:
+            if op in (0, 2, 4):
+                if op == 0:
+                    jwe.encrypt_compact(dict(hdr), b"pt", key, **kw)
+                elif op == 2:
+                    o = jwe.FlattenedJSONEncryption({k: v for k, v in hdr.items() if k != "alg"}, b"pt")
+                    o.add_recipient({"alg": alg}, key)
+                    jwe.encrypt_json(o, None, **kw)
+                else:
+                    jwt.encode(dict(hdr), {"sub": "x"}, key, registry=JWERegistry(algorithms=allow))
+            elif op == 1:
+                jwe.decrypt_compact(tok, key, **kw)
+            elif op == 3:
+                h, e_, iv, ct, tg = tok.split(".")
+                v = {"protected": h, "iv": iv, "ciphertext": ct, "tag": tg}
+                if e_:
+                    v["encrypted_key"] = e_
+                jwe.decrypt_json(v, key, **kw)
+            else:
+                jwt.decode(tok, key, registry=JWERegistry(algorithms=allow))
+            returned, exc = True, None
+        except Exception as e:  # noqa
+            returned, exc = False, e
+        ok = spec_jwe("alg", alg, allow) and spec_jwe("enc", enc, allow) and (not has_zip or spec_jwe("zip", zipname, allow))
+        bad = (returned and not ok) or (not returned and not ok and not isinstance(exc, (UnsupportedAlgorithmError, ValueError)))
+        return {"violated": bool(bad), "key": "c05-jwe-op", "detail": "op=%d alg=%r enc=%r zip=%r allow=%r -> %s" %
+                (op, alg, enc, zipname if has_zip else None, allow, "returned" if returned else type(exc).__name__)}
     if func.startswith("jws_op_"):
         OPS = ["serialize_compact", "serialize_json", "deserialize_compact", "deserialize_json", "jwt_encode", "jwt_decode"]
         call = "%d, %s" % (OPS.index(func[7:]), call)
